@@ -77,13 +77,66 @@ theorem grpc_recv_sequence (gunzip) (maxRecv : Nat) (ms : List Bytes) (e : Env)
     grpcRecvAll gunzip maxRecv (ms.length + 1) e = ms.map .msg ++ [.eof] :=
   grpc_sequence gunzip maxRecv ms e hall hW
 
-/-- a body that ends inside a frame (header or payload) yields an error — never the partial
-message, never a clean end. -/
-theorem grpc_recv_truncated (gunzip) (maxRecv : Nat) (e : Env) (flag : UInt8) (m : Bytes) (k : Nat)
-    (hk1 : 0 < k) (hk2 : k < (frame flag m).length) (hW : e.data = (frame flag m).take k)
+/-- a gRPC / gRPC-web body that ends inside a frame (header or payload) yields the preceding
+complete messages, in order, followed by an error — never the partial message, never a
+clean end. -/
+theorem grpc_recv_truncated (gunzip) (maxRecv : Nat) (ms : List Bytes) (e : Env) (flag : UInt8) (m : Bytes) (k : Nat)
+    (hk1 : 0 < k) (hk2 : k < (frame flag m).length)
+    (hall : ∀ m ∈ ms, m.length ≤ maxRecv ∧ m.length < 4294967296)
+    (hW : e.data = (ms.map (frame 0)).flatten ++ (frame flag m).take k)
     (hlim : m.length ≤ maxRecv) (h32 : m.length < 4294967296) :
-    ∃ x e', grpcRecv gunzip maxRecv e = (.err x, e') :=
-  grpc_truncated gunzip maxRecv e flag m k hk1 hk2 hW hlim h32
+    ∃ x, grpcRecvAll gunzip maxRecv (ms.length + 1) e = ms.map .msg ++ [.err x] :=
+  grpc_sequence_truncated gunzip maxRecv flag m k hk1 hk2 hlim h32 ms e hall hW
+
+/-- HTTP, length-delimited protobuf: a body that ends in the middle of a message (inside its
+length prefix or inside its bytes) yields the preceding complete messages followed by an
+error, for every fragmentation. -/
+theorem http_recv_truncated_proto (limit : Nat) (ms : List Bytes) (m : Bytes) (k : Nat) (spares : List Nat) (s : HS)
+    (hk1 : 0 < k) (hk2 : k < (protoWriteNext m).length) (hlim : m.length ≤ limit) (hint : m.length ≤ maxInt)
+    (hE : s.rEOF = false) (hall : ∀ m ∈ ms, m.length ≤ limit ∧ m.length ≤ maxInt)
+    (hW : s.rbuf ++ s.env.data = (ms.map protoWriteNext).flatten ++ (protoWriteNext m).take k) :
+    ∃ x, recvAll .proto limit (ms.length + 1) spares s = ms.map .msg ++ [.err x] :=
+  Streams.http_recv_truncated_proto limit m k hk1 hk2 hlim hint ms spares s hE hall hW
+
+/-- HTTP, JSON objects: same law. -/
+theorem http_recv_truncated_json (limit : Nat) (ms : List Bytes) (m : Bytes) (k : Nat) (spares : List Nat) (s : HS)
+    (hm : JsonFrame m) (hk1 : 0 < k) (hk2 : k < m.length)
+    (hE : s.rEOF = false) (hall : ∀ m ∈ ms, m.length ≤ limit ∧ JsonFrame m)
+    (hW : s.rbuf ++ s.env.data = (ms.map jsonWriteNext).flatten ++ (jsonWriteNext m).take k) :
+    ∃ x, recvAll .json limit (ms.length + 1) spares s = ms.map .msg ++ [.err x] :=
+  Streams.http_recv_truncated_json limit m k hm hk1 hk2 ms spares s hE hall hW
+
+/-- gRPC, server to client: a peer reading what `SendMsg` wrote for the handler's replies
+receives exactly those replies in order, then the end of the data (the trailers carry the
+final status). -/
+theorem grpc_reply_sequence (maxSend clientMax : Nat) (ms : List Bytes) (e : Env)
+    (hall : ∀ m ∈ ms, m.length ≤ maxSend ∧ m.length ≤ clientMax ∧ m.length < 4294967296)
+    (hW : e.data = grpcSendAll maxSend ms) :
+    grpcRecvAll none clientMax (ms.length + 1) e = ms.map .msg ++ [.eof] :=
+  Streams.grpc_reply_sequence maxSend clientMax ms e hall hW
+
+/-- gRPC-web, server to client: the body (reply frames, then the trailer frame with flag 0x80)
+splits on the client into exactly the handler's replies in order followed by the trailer
+block that carries the final status. -/
+theorem web_reply_sequence (maxSend : Nat) (ms : List Bytes) (trailer : Bytes)
+    (hall : ∀ m ∈ ms, m.length ≤ maxSend ∧ m.length < 4294967296) (ht : trailer.length < 4294967296) :
+    deframe (ms.length + 1) (grpcSendAll maxSend ms ++ frame 128 trailer)
+      = some (ms.map (fun m => (0, m)) ++ [(128, trailer)]) :=
+  Streams.web_reply_sequence maxSend ms trailer hall ht
+
+/-- HTTP server streams: what `WriteNext` wrote for the handler's replies comes back from the
+same stream codec message by message, in order, then a clean end — for every fragmentation. -/
+theorem http_reply_sequence_proto (limit : Nat) (ms : List Bytes) (spares : List Nat) (e : Env) (b : Buf)
+    (hall : ∀ m ∈ ms, m.length ≤ limit ∧ m.length ≤ maxInt)
+    (hW : b.data ++ e.data = (ms.map protoWriteNext).flatten) :
+    protoSeq limit (ms.length + 1) spares e b = (ms, some .eof) :=
+  proto_sequence limit ms spares e b hall hW
+
+theorem http_reply_sequence_json (limit : Nat) (hl : 0 < limit) (ms : List Bytes) (spares : List Nat) (e : Env) (b : Buf)
+    (hall : ∀ m ∈ ms, m.length ≤ limit ∧ JsonFrame m)
+    (hW : b.data ++ e.data = (ms.map jsonWriteNext).flatten) :
+    jsonSeq limit (ms.length + 1) spares e b = (ms, some .eof) :=
+  json_sequence limit hl ms spares e b hall hW
 
 /-- gRPC-web-text: the base64 layer loses nothing however the writes are split (the encoder
 is closed after the trailer frame). -/
@@ -96,6 +149,14 @@ example : grpcRecvAll none 100 3 ⟨frame 0 [1, 2] ++ frame 0 [], [3, 1, 1], tru
     = [.msg [1, 2], .msg [], .eof] :=
   grpc_recv_sequence none 100 [[1, 2], []] _ (by decide) (by decide)
 
+-- a stream cut inside its second message: the first message, then an error
+example : ∃ x, grpcRecvAll none 100 2 ⟨frame 0 [1, 2] ++ (frame 0 [3, 4, 5]).take 6, [], false, []⟩
+    = [.msg [1, 2], .err x] :=
+  grpc_recv_truncated none 100 [[1, 2]] _ 0 [3, 4, 5] 6 (by decide) (by decide) (by decide) (by decide)
+    (by decide) (by decide)
+example : deframe 3 (grpcSendAll 10 [[7], [8, 9]] ++ frame 128 [1]) = some [(0, [7]), (0, [8, 9]), (128, [1])] := by
+  decide
+
 end Larking.Props.C06
 
 #print axioms Larking.Props.C06.translator_complete
@@ -106,4 +167,10 @@ end Larking.Props.C06
 #print axioms Larking.Props.C06.http_recv_safe
 #print axioms Larking.Props.C06.grpc_recv_sequence
 #print axioms Larking.Props.C06.grpc_recv_truncated
+#print axioms Larking.Props.C06.http_recv_truncated_proto
+#print axioms Larking.Props.C06.http_recv_truncated_json
+#print axioms Larking.Props.C06.grpc_reply_sequence
+#print axioms Larking.Props.C06.web_reply_sequence
+#print axioms Larking.Props.C06.http_reply_sequence_proto
+#print axioms Larking.Props.C06.http_reply_sequence_json
 #print axioms Larking.Props.C06.web_text_lossless
